@@ -237,10 +237,16 @@ Definition untouched (g g' : gst) (o : oid) : Prop := objs g' o = objs g o /\ wl
 Definition eff (g g' : gst) (o : oid) : Prop :=
   (forall o', o' <> o -> untouched g g' o') /\ next_oid g' = next_oid g /\
   (forall ch x, cmap g' ch = Some x -> cmap g ch = Some x).
+(* the pcs that are going to take a member out of (or, on a failed announcement, back out of) the object they hold *)
+Definition needs_member (p : pc) : option (oid * user) :=
+  match p with PJoinNotify _ o _ n _ | PLeaveN1 _ o n _ _ => Some (o, n) | _ => None end.
+Lemma needs_member_holds p o n : needs_member p = Some (o, n) -> holds p = Some o.
+Proof. destruct p; cbn [needs_member holds]; try discriminate; intro E; injection E as <- _; reflexivity. Qed.
+
 Definition post (g' : gst) (t : tid) (o : oid) (p' : pc) : Prop :=
   match p' with
-  | PJoinNotify _ o' _ n _ => o' = o /\ wl g' o = Some t /\ In n (members (objs g' o))
-  | PLeaveN1 _ o' _ _ _ | PLeaveN2 _ o' _ _ => o' = o /\ wl g' o = Some t
+  | PJoinNotify _ o' _ n _ | PLeaveN1 _ o' n _ _ => o' = o /\ wl g' o = Some t /\ In n (members (objs g' o))
+  | PLeaveN2 _ o' _ _ => o' = o /\ wl g' o = Some t
   | PDone => True
   | _ => False
   end.
@@ -255,6 +261,8 @@ Ltac post_tac :=
   cbn [post]; red_g;
   first [ exact I
         | split; [reflexivity|split; [apply upd_same|rewrite ?upd_same; red_g; apply In_add_self]]
+        | split; [reflexivity|split; [apply upd_same|
+            match goal with H : negb (mem _ _) = false |- _ => apply negb_false_iff in H; apply mem_In in H; exact H end]]
         | split; [reflexivity|apply upd_same] ].
 Ltac eleaf :=
   rest_split; unfold eff, untouched; unf_set; red_g;
@@ -296,7 +304,7 @@ Definition seg_post (t : tid) (g g' : gst) (p' : pc) : Prop :=
   Kinv g' /\ next_oid g <= next_oid g' /\ pc_lt3 (next_oid g') p' /\
   (forall o', o' < next_oid g -> wl g o' <> None -> wl g o' <> Some t -> untouched g g' o') /\
   (forall o, holds p' = Some o -> wl g' o = Some t) /\
-  (forall ch o cr n id, p' = PJoinNotify ch o cr n id -> In n (members (objs g' o))).
+  (forall o n, needs_member p' = Some (o, n) -> In n (members (objs g' o))).
 
 Lemma from_eff t g g' o p' :
   Kinv g -> o < next_oid g -> (wl g o = None \/ wl g o = Some t) -> eff g g' o /\ post g' t o p' -> seg_post t g g' p'.
@@ -309,13 +317,13 @@ Proof.
   - apply E1. intros ->. destruct HT; contradiction.
   - apply E1. intros ->. destruct HT; contradiction.
   - intros o0 Hh. destruct p'; cbn [post holds] in *; try discriminate; injection Hh as <-; destruct Hp as (->&Hw&_) || destruct Hp as (->&Hw); exact Hw.
-  - intros ch o0 cr n id ->. cbn [post] in Hp. destruct Hp as (->&_&Hn). exact Hn.
+  - intros o0 n0 E. destruct p'; cbn [post needs_member] in *; try discriminate; injection E as <- <-; destruct Hp as (->&_&Hn); exact Hn.
 Qed.
 
 Lemma stay t g p' : Kinv g -> pc_lt3 (next_oid g) p' -> holds p' = None -> seg_post t g g p'.
 Proof.
   intros K Hp Hh. unfold seg_post. split; [exact K|]. split; [lia|]. split; [exact Hp|]. split; [intros; split; reflexivity|].
-  split; [intros o H; rewrite Hh in H; discriminate H|]. intros ch o cr n id ->. discriminate Hh.
+  split; [intros o H; rewrite Hh in H; discriminate H|]. intros o n E. apply needs_member_holds in E. rewrite Hh in E. discriminate E.
 Qed.
 
 Section Locks2.
@@ -349,7 +357,7 @@ Section Locks2.
         * assert (Hne : o' <> next_oid g) by (unfold oid in *; lia). destruct (E1 o' Hne) as [-> _]. apply Ho1. exact Hne.
         * assert (Hne : o' <> next_oid g) by (unfold oid in *; lia). destruct (E1 o' Hne) as [_ ->]. apply Ho1. exact Hne.
         * intros o0 Hh0. destruct (snd (fst r)); cbn [post holds] in *; try discriminate; injection Hh0 as <-; destruct Hpo as (->&Hw&_) || destruct Hpo as (->&Hw); exact Hw.
-        * intros ch0 o0 cr n id0 E. rewrite E in Hpo. cbn [post] in Hpo. destruct Hpo as (->&_&Hn). exact Hn.
+        * intros o0 n0 E. destruct (snd (fst r)); cbn [post needs_member] in *; try discriminate; injection E as <- <-; destruct Hpo as (->&_&Hn); exact Hn.
     - (* LEAVE *) unfold leave_start. destruct (cmap g ch) as [o|] eqn:Hc; [|apply stay; [exact K|exact I|reflexivity]].
       destruct (lock_free g o) eqn:Hl.
       + eapply from_eff; [exact K|apply K2 with ch; exact Hc|left; apply lock_free_None; exact Hl|apply e_leave_locked].
@@ -382,7 +390,7 @@ End Locks2.
 (* ---------- the invariant of the task list ---------- *)
 Definition tk_ok (g : gst) (t : tid) (p : pc) : Prop :=
   pc_lt3 (next_oid g) p /\ (forall o, holds p = Some o -> wl g o = Some t) /\
-  (forall ch o cr n id, p = PJoinNotify ch o cr n id -> In n (members (objs g o))).
+  (forall o n, needs_member p = Some (o, n) -> In n (members (objs g o))).
 Definition LInv (s : cstate) : Prop :=
   Kinv (cg s) /\ NoDup (map fst (tasks s)) /\ (forall t k, In (t, k) (tasks s) -> t < next_tid s) /\
   (forall t k, In (t, k) (tasks s) -> tk_ok (cg s) t (t_pc k)).
@@ -397,8 +405,8 @@ Lemma tk_frame g g' t p :
 Proof.
   intros (H1&H2&H3) Hn Hu. split; [eapply pc_lt3_mono; eassumption|]. split.
   - intros o Hh. destruct (Hu o (holds_lt _ _ _ H1 Hh) (H2 o Hh)) as [_ ->]. apply H2. exact Hh.
-  - intros ch o cr n id E. assert (Hh : holds p = Some o) by (rewrite E; reflexivity).
-    destruct (Hu o (holds_lt _ _ _ H1 Hh) (H2 o Hh)) as [-> _]. eapply H3. exact E.
+  - intros o n E. assert (Hh : holds p = Some o) by (eapply needs_member_holds; exact E).
+    destruct (Hu o (holds_lt _ _ _ H1 Hh) (H2 o Hh)) as [-> _]. apply H3. exact E.
 Qed.
 
 Lemma Kinv_same g g' : objs g' = objs g -> next_oid g' = next_oid g -> cmap g' = cmap g -> Kinv g -> Kinv g'.
@@ -497,7 +505,7 @@ Proof.
     split; [apply nd_snoc; assumption|]. split.
     + intros t k H. apply in_app_or in H. destruct H as [H|[H|[]]]; [apply Ht in H; lia|injection H as <- _; lia].
     + intros t k H. apply in_app_or in H. destruct H as [H|[H|[]]]; [apply Hk; exact H|]. injection H as <- <-. cbn [t_pc].
-      split; [exact I|]. split; [intros o X; discriminate X|intros ? ? ? ? ? X; discriminate X].
+      split; [exact I|]. split; [intros o X; discriminate X|intros ? ? X; discriminate X].
   - destruct (tlookup t (tasks s)) as [k|] eqn:Hl; [|exact HL]. apply tlookup_In in Hl.
     destruct (Hk t k Hl) as (P1&P2&P3).
     pose proof (seg_locks cf t (t_conn k) (t_me k) (cg s) (t_pc k) ok hint K P1 P2) as Hs.
@@ -507,7 +515,7 @@ Proof.
     + intros t' k' H. apply settle_In_nd in H; [|exact Hn]. destruct H as [[H Hne]|[-> [H|[ch H]]]].
       * eapply tk_frame; [apply Hk; exact H|exact S2|]. intros o Ho Hw. apply S4; [exact Ho|rewrite Hw; discriminate|rewrite Hw; congruence].
       * rewrite H. split; [exact S3|]. split; [exact S5|exact S6].
-      * rewrite H. split; [exact I|]. split; [intros o X; discriminate X|intros ? ? ? ? ? X; discriminate X].
+      * rewrite H. split; [exact I|]. split; [intros o X; discriminate X|intros ? ? X; discriminate X].
   - destruct (cuser (cg s) c) as [u|]; [|exact HL].
     destruct (fold_frame c (tasks s) (cg s)) as (Ho&_&_&_). destruct (fold_frame2 c (tasks s) (cg s)) as (Hno&Hc).
     pose proof (fun o => fold_wl c o (tasks s) (cg s)) as Hw.
@@ -530,7 +538,7 @@ Proof.
       * destruct (pick_next hint (c1 :: r1)) as [ch r]. split; [apply nd_snoc; assumption|]. split.
         -- intros t k H. apply in_app_or in H. destruct H as [H|[H|[]]]; [apply Hlt in H; lia|injection H as <- _; lia].
         -- intros t k H. apply in_app_or in H. destruct H as [H|[H|[]]]; [apply Hfr; [reflexivity..|exact H]|]. injection H as <- <-. cbn [t_pc].
-           split; [exact I|]. split; [intros o X; discriminate X|intros ? ? ? ? ? X; discriminate X].
+           split; [exact I|]. split; [intros o X; discriminate X|intros ? ? X; discriminate X].
     + split; [eapply Kinv_same; [| | |exact K]; assumption|]. split; [exact Hnd|]. split; [exact Hlt|]. apply Hfr; reflexivity.
   - destruct (tlookup t (tasks s)) as [k|] eqn:Hl; [|exact HL]. apply tlookup_In in Hl.
     destruct (t_conn k); [|exact HL]. cbn [fst cg tasks next_tid].
@@ -623,7 +631,9 @@ Theorem conc_join_announced cf es t ok hint c id :
 Proof.
   intros s. cbv zeta. destruct (linv_reach cf es) as (_&_&_&Hk). fold s in Hk. unfold cstep. cbv zeta.
   destruct (tlookup t (tasks s)) as [k|] eqn:Hl; [|intros []]. apply tlookup_In in Hl. destruct (Hk t k Hl) as (_&_&P3).
-  pose proof (jack_seg cf t (t_conn k) (t_me k) (cg s) (t_pc k) ok hint P3) as Hs.
+  assert (P3' : forall ch o cr n id0, t_pc k = PJoinNotify ch o cr n id0 -> In n (members (objs (cg s) o)))
+    by (intros ch o cr n id0 E; apply P3; rewrite E; reflexivity).
+  pose proof (jack_seg cf t (t_conn k) (t_me k) (cg s) (t_pc k) ok hint P3') as Hs.
   destruct (seg cf t (t_conn k) (t_me k) (cg s) (t_pc k) ok hint) as [[g' p] os]. cbn [fst snd cg] in *. intro H.
   rewrite Forall_forall in Hs. apply Hs in H. cbn [jack_ok] in H. change (A_JOIN =? A_JOIN) with true in H. cbv iota in H.
   destruct H as (Hc & ch & o & n & cr & Hn & Hall). exists k, ch, o, n, cr. auto.
@@ -696,4 +706,117 @@ Proof.
         red_g. symmetry. apply K1. lia.
       * intro ch'. unfold upd. destruct (N.eqb_spec ch' ch) as [->|Hne]; [symmetry; exact Hm|reflexivity].
   - destruct (lock_free (cg s) o); [apply Hsame; apply sil_existing|]. cbn [fst snd]. intros [H|H]; discriminate H.
+Qed.
+
+(* ---------- C18: a departure is announced ---------- *)
+Lemma In_conns_of_opt g us tc c u : In u us -> In c (reg g u) -> tc <> Some c -> In c (conns_of g us tc).
+Proof.
+  intros Hu Hc Hn. unfold conns_of. apply in_flat_map. exists u. split; [exact Hu|].
+  apply filter_In. split; [exact Hc|]. destruct tc as [e|]; [|reflexivity]. apply negb_true_iff. apply N.eqb_neq. congruence.
+Qed.
+
+(* no MEMBER_LEFT event *)
+Definition no_left (x : cout) : Prop :=
+  match x with OEvent _ k _ _ _ => if k =? K_LEFT then False else True | _ => True end.
+
+Definition lev_ok (g : gst) (tc : option conn) (g' : gst) (os : list cout) (x : cout) : Prop :=
+  match x with
+  | OEvent _ k ch n own =>
+      if k =? K_LEFT then
+        exists o, In n (members (objs g o)) /\ ~ In n (members (objs g' o)) /\ ~ In ch (idx g' n) /\
+          forall u c'', In u (members (objs g o)) -> In c'' (reg g u) -> tc <> Some c'' -> In (OEvent c'' K_LEFT ch n own) os
+      else True
+  | _ => True
+  end.
+
+Lemma no_left_lev g tc g' os x : no_left x -> lev_ok g tc g' os x.
+Proof. destruct x; cbn [no_left lev_ok]; try (intros; exact I). destruct (kind =? K_LEFT); [contradiction|auto]. Qed.
+Lemma nbl g tc g' os l : Forall no_left l -> Forall (lev_ok g tc g' os) l.
+Proof. intro Hl. eapply Forall_impl; [intros x Hx; apply no_left_lev; exact Hx|exact Hl]. Qed.
+
+Section LeaveEv.
+  Variable cf : ccfg.
+  Variables (t : tid) (tc : option conn) (me : user).
+
+  (* the step that announces the departure removes the member and the index entry *)
+  Lemma n1_removes g ch o n w id ok1 hint :
+    ~ In n (members (objs (fst (fst (leave_after_n1 cf t tc g ch o n w id ok1 hint))) o)) /\
+    ~ In ch (idx (fst (fst (leave_after_n1 cf t tc g ch o n w id ok1 hint))) n).
+  Proof.
+    unfold leave_after_n1, leave_after_n2, leave_end. cbv beta iota zeta. repeat hd1; rest_split; unf_set; red_g;
+      rewrite ?upd_same; red_g; (split; intro X; apply In_del in X; destruct X as [_ X]; apply X; reflexivity).
+  Qed.
+
+  Lemma n1_outputs g ch o n w id ok1 hint :
+    exists rest, snd (leave_after_n1 cf t tc g ch o n w id ok1 hint)
+                 = (if ok1 then events g (members (objs g o)) tc K_LEFT ch n w else []) ++ rest /\ Forall no_left rest.
+  Proof.
+    unfold leave_after_n1, leave_after_n2, leave_end. cbv beta iota zeta. repeat hd1;
+      (eexists; split; [reflexivity|outs ltac:(unfold events)]).
+  Qed.
+
+  Lemma lev_leave_after_n1 g ch o n w id ok1 hint : In n (members (objs g o)) ->
+    Forall (lev_ok g tc (fst (fst (leave_after_n1 cf t tc g ch o n w id ok1 hint))) (snd (leave_after_n1 cf t tc g ch o n w id ok1 hint)))
+           (snd (leave_after_n1 cf t tc g ch o n w id ok1 hint)).
+  Proof.
+    intro Hin. destruct (n1_removes g ch o n w id ok1 hint) as [R1 R2]. destruct (n1_outputs g ch o n w id ok1 hint) as (rest&E&Hr).
+    set (G' := fst (fst (leave_after_n1 cf t tc g ch o n w id ok1 hint))) in *.
+    set (OS := snd (leave_after_n1 cf t tc g ch o n w id ok1 hint)) in *.
+    rewrite E at 2. apply Forall_app. split; [|apply nbl; exact Hr]. destruct ok1; [|constructor].
+    unfold events at 1. apply Forall_forall. intros x Hx. apply in_map_iff in Hx. destruct Hx as (c0&<-&_).
+    cbn [lev_ok]. change (K_LEFT =? K_LEFT) with true. cbv iota. exists o. split; [exact Hin|]. split; [exact R1|]. split; [exact R2|].
+    intros u c'' Hu Hc Hn. rewrite E. apply in_or_app. left. unfold events. apply in_map_iff. exists c''. split; [reflexivity|].
+    eapply In_conns_of_opt; eassumption.
+  Qed.
+
+  Lemma lev_leave_locked g ch o ob id hint :
+    Forall (lev_ok g tc (fst (fst (leave_locked cf t tc me g ch o ob id hint))) (snd (leave_locked cf t tc me g ch o ob id hint)))
+           (snd (leave_locked cf t tc me g ch o ob id hint)).
+  Proof.
+    unfold leave_locked. cbv beta iota zeta. repeat hd1;
+      first [ apply lev_leave_after_n1;
+              match goal with H : negb (mem _ _) = false |- _ => apply negb_false_iff in H; apply mem_In in H; exact H end
+            | apply nbl; outs idtac ].
+  Qed.
+
+  Lemma nl_join_locked g ch o cr ob id : Forall no_left (snd (join_locked cf t tc me g ch o cr ob id)).
+  Proof. unf_steps. repeat hd1; outs ltac:(unfold events). Qed.
+
+  Lemma lev_seg g p ok hint :
+    (forall o n, needs_member p = Some (o, n) -> In n (members (objs g o))) ->
+    Forall (lev_ok g tc (fst (fst (seg cf t tc me g p ok hint))) (snd (seg cf t tc me g p ok hint))) (snd (seg cf t tc me g p ok hint)).
+  Proof.
+    intro Hj.
+    destruct p as [[]| | | | | | | | | | |]; cbn [seg];
+      try solve [apply nbl; unfold join_start; repeat hd1;
+                 first [ apply nl_join_locked
+                       | unfold join_finish, leave_after_n2, leave_end, members_read,
+                                set_acl_locked, get_acl_read, bcast_lookup, bcast_read; cbv beta iota zeta; repeat hd1; outs ltac:(unfold events) ]].
+    - unfold leave_start. destruct (cmap g ch) as [o|]; [|apply nbl; outs idtac].
+      destruct (lock_free g o); [apply lev_leave_locked|apply nbl; outs idtac].
+    - destruct (lock_free g o); [apply lev_leave_locked|apply nbl; outs idtac].
+    - apply lev_leave_after_n1. apply Hj. reflexivity.
+  Qed.
+End LeaveEv.
+
+(* C18 under interleaving: when a departure is announced (the MEMBER_LEFT forwarding succeeded, or there is none), the
+   announcement goes, in that same atomic step, to every connection registered for every member of the channel object as
+   it was BEFORE the removal (the leaver's other connections included), the requesting connection excepted; and that step
+   removes the leaver from the object and the channel from the leaver's index *)
+Theorem conc_leave_announced cf es t ok hint c' kind ch n own :
+  let s := cstate_after cf es in
+  let r := cstep cf s (ERun t ok hint) in
+  kind = K_LEFT ->
+  In (OEvent c' kind ch n own) (snd r) ->
+  exists k o, In (t, k) (tasks s) /\
+    In n (members (objs (cg s) o)) /\ ~ In n (members (objs (cg (fst r)) o)) /\ ~ In ch (idx (cg (fst r)) n) /\
+    forall u c'', In u (members (objs (cg s) o)) -> In c'' (reg (cg s) u) -> t_conn k <> Some c'' ->
+      In (OEvent c'' K_LEFT ch n own) (snd r).
+Proof.
+  intros s. cbv zeta. intros ->. destruct (linv_reach cf es) as (_&_&_&Hk). fold s in Hk. unfold cstep. cbv zeta.
+  destruct (tlookup t (tasks s)) as [k|] eqn:Hl; [|intros []]. apply tlookup_In in Hl. destruct (Hk t k Hl) as (_&_&P3).
+  pose proof (lev_seg cf t (t_conn k) (t_me k) (cg s) (t_pc k) ok hint P3) as Hs.
+  destruct (seg cf t (t_conn k) (t_me k) (cg s) (t_pc k) ok hint) as [[g' p] os]. cbn [fst snd cg] in *. intro H.
+  rewrite Forall_forall in Hs. apply Hs in H. cbn [lev_ok] in H. change (K_LEFT =? K_LEFT) with true in H. cbv iota in H.
+  destruct H as (o & H1 & H2 & H3 & H4). exists k, o. auto.
 Qed.
